@@ -177,6 +177,8 @@ def generate():
         lines.append("(* %s:%d -- %s *)" % (g["file"], g["line"], g["what"]))
         lines.append("Definition g_%s (f : sflags) : bool := %s." % (name, body))
     lines.append("")
+    lines.append("(* every flag set to [b], except --dry-run and --verify-only (used by the non-vacuity examples) *)")
+    lines.append("Definition sflags_all (b dry verify : bool) : sflags := mk_sflags %s." % " ".join("dry" if f == "dry_run" else ("verify" if f == "verify_only" else "b") for f in flags))
     lines.append("Definition main_guards : list (string * (sflags -> bool)) := [%s]." % "; ".join('("%s", g_%s)' % (n, n) for n in guards if n.startswith("main_")))
     lines.append("Definition engine_guards : list (string * (sflags -> bool)) := [%s]." % "; ".join('("%s", g_%s)' % (n, n) for n in guards if n.startswith("engine_")))
     lines.append("Definition all_guards : list (string * (sflags -> bool)) := main_guards ++ engine_guards.")
